@@ -492,7 +492,7 @@ func (x *Exec) invoke(fr *Frame, st *State, cc *ssa.CallCommon, recv Val, args [
 	x.oblige(st, "nil", name, x.safetyProps(), nn, "method call on nil interface: "+cc.Method.Name(), posStr(x.prog.fset, ins.Pos()))
 	st.assume(nn)
 	key := "iface:"
-	if n, ok := cc.Value.Type().(*types.Named); ok {
+	if n, ok := types.Unalias(cc.Value.Type()).(*types.Named); ok {
 		if n.Obj().Pkg() != nil {
 			key += n.Obj().Pkg().Name() + "."
 		}
@@ -645,7 +645,7 @@ func (x *Exec) applyContract(fr *Frame, st *State, c *Contract, sig *types.Signa
 		}
 		st.assume(ev2.evalBool(en.Text))
 	}
-	st.log = append(st.log, LogEntry{Callee: short, Args: args, Res: res, Depth: fr.depth})
+	st.log = append(st.log, LogEntry{Key: key, Callee: short, Args: args, Res: res, Depth: fr.depth})
 	if fr.depth == 0 {
 		x.propagationAfterCall(st, short, res)
 	}
